@@ -522,6 +522,49 @@ def unfold_ifexp_assign(fn, ref_sigs: list) -> int:
     return n
 
 
+def split_tuple_assign(fn, ref_sigs: list) -> int:
+    """`a, b = X, Y`  ->  `a = X; b = Y` when no later value reads an earlier target (then the order of evaluation and
+    binding is immaterial), kept only where the reference has separate assignments."""
+    n = 0
+    for st in [x for x in _own_nodes(fn) if isinstance(x, ast.Assign)]:
+        if len(st.targets) != 1 or not isinstance(st.targets[0], ast.Tuple) or not isinstance(st.value, ast.Tuple):
+            continue
+        ts, vs = st.targets[0].elts, st.value.elts
+        if len(ts) != len(vs) or any(isinstance(x, ast.Starred) for x in ts + vs):
+            continue
+        ttxt = [ast.unparse(t) for t in ts]
+        bad = False
+        for j, v in enumerate(vs):
+            reads = {ast.unparse(x) for x in ast.walk(v) if isinstance(x, (ast.Name, ast.Attribute, ast.Subscript))}
+            if any(t in reads or any(r.startswith(t + ".") or r.startswith(t + "[") for r in reads) for t in ttxt[:j] + ttxt[j + 1 :]):
+                bad = True
+        if bad or any(isinstance(x, (ast.Call, ast.Await)) for v in vs for x in ast.walk(v)):
+            continue
+        news = []
+        for t, v in zip(ts, vs):
+            a = ast.Assign(targets=[t], value=v)
+            ast.copy_location(a, st)
+            news.append(a)
+        before = alignment_score(fn, ref_sigs)
+        done = False
+        for holder in [fn] + list(_own_nodes(fn)):
+            for field in ("body", "orelse", "finalbody"):
+                lst = getattr(holder, field, None)
+                if isinstance(lst, list) and st in lst:
+                    i = lst.index(st)
+                    lst[i : i + 1] = news
+                    ast.fix_missing_locations(fn)
+                    if alignment_score(fn, ref_sigs) > before:
+                        n += 1
+                    else:
+                        lst[i : i + len(news)] = [st]
+                    done = True
+                    break
+            if done:
+                break
+    return n
+
+
 def fold_pop_del(fn, ref_sigs: list) -> int:
     """`d.pop(k)` as a statement (value unused)  <->  `del d[k]` (both raise KeyError / IndexError for a missing key),
     whichever form the reference has at that place."""
@@ -810,6 +853,9 @@ def normalise_module(modname: str, tree: ast.Module, source: str = "") -> dict:
                 k = fold_pop_del(fn, r["stmts"])
                 if k:
                     entry["pop_del"] = k
+                k = split_tuple_assign(fn, r["stmts"])
+                if k:
+                    entry["split_tuple_assign"] = k
             if "inlined" not in entry and r.get("stmts"):
                 # a hoist next to a real edit: keep the inlinings that bring statements back to their reference form
                 inl = inline_new_locals(fn, r["locals"], r["stmts"])
